@@ -87,6 +87,23 @@ def op_eval(s: str, scope: str) -> str:
     return f"val {v}"
 
 
+def op_evalseq(s: str, scopes: str) -> str:
+    """one expression object, evaluated under several scopes in turn"""
+    try:
+        d = _parser.expression_from_string(s)
+    except Exception as e:  # noqa: BLE001
+        return exc_line(e)
+    outs = []
+    for scope in scopes.split("|"):
+        try:
+            outs.append(f"val {d.evaluate(parse_scope(scope))}")
+        except KeyError as e:
+            outs.append(f"key {e.args[0]}")
+        except Exception as e:  # noqa: BLE001
+            outs.append("pyexc " + type(e).__name__)
+    return " ## ".join(outs)
+
+
 def opt_shape(s: str):
     return None if s == "<None>" else s
 
@@ -293,7 +310,7 @@ def op_use(shape: str) -> str:
     return "accept"
 
 
-HANDLERS = {"USE": op_use, "PARSE": op_parse, "EVAL": op_eval, "SHAPE": op_shape, "CHECK": op_check, "CTX": op_ctx}
+HANDLERS = {"USE": op_use, "PARSE": op_parse, "EVAL": op_eval, "EVALSEQ": op_evalseq, "SHAPE": op_shape, "CHECK": op_check, "CTX": op_ctx}
 
 
 def handle(line: str) -> str:
